@@ -80,7 +80,8 @@ inductive Ev
   | warnRes (i : Nat)
   | write (i : Nat) (status : Nat) (closeMark complete : Bool)
   | tunnel (i : Nat)                                  -- blind tunnel ran to completion
-  | hijacked (i : Nat) (tlsConn : Bool)               -- modifier took the connection; `tlsConn` = it got the decrypted one
+  | hijacked (i : Nat) (tlsConn : Bool) (tid : Nat)   -- modifier took the connection; `tlsConn` = it got the decrypted
+                                                      -- one, `tid` = of which TLS session (0: a raw connection)
   | closeConn
   deriving Repr, DecidableEq
 
@@ -99,6 +100,10 @@ def pre (s : St) (i c : Nat) (rq : ReqB) : List Ev :=
   [.read i, .link c, .reqmod i c secure secure s.connTls (if s.connTls then s.tlsId else 0)] ++
     (if rqErr rq then [.warnReq i] else [])
 
+/-- What `Session.Hijack()` hands out: `session.conn`, which `setConn` re-points to the decrypted
+connection of the innermost tunnel. -/
+def hijTid (s : St) : Nat := if s.sessTls then s.tlsId else 0
+
 def stAfter (s : St) : St := { s with secure := s.secure || s.connTls }
 
 /-- One call of `handle` for a non-CONNECT request. `shutdown` = `p.Closing()` at the close decision. -/
@@ -106,7 +111,7 @@ def handleX (shutdown : Bool) (s : St) (i c : Nat) (reqClose : Bool) (rq : ReqB)
     List Ev × Next :=
   let s' := stAfter s
   let p := pre s i c rq
-  if rq = .hijack then (p ++ [.hijacked i s.sessTls, .unlink c], .hijack) else
+  if rq = .hijack then (p ++ [.hijacked i s.sessTls (hijTid s), .unlink c], .hijack) else
   -- round trip
   let (up, status, resClose, complete) : List Ev × Nat × Bool × Bool :=
     if rqSkip rq then ([], 200, false, true) else
@@ -115,7 +120,7 @@ def handleX (shutdown : Bool) (s : St) (i c : Nat) (reqClose : Bool) (rq : ReqB)
     | .fail => ([.upstream i s'.secure, .warnRt i], 502, false, true)
     | .trunc st => ([.upstream i s'.secure], st, false, false)
   let post := [Ev.resmod i c status] ++ (if rsErr rs then [Ev.warnRes i] else [])
-  if rs = .hijack then (p ++ up ++ post ++ [.hijacked i s.sessTls, .unlink c], .hijack) else
+  if rs = .hijack then (p ++ up ++ post ++ [.hijacked i s.sessTls (hijTid s), .unlink c], .hijack) else
   let closing := reqClose || resClose || shutdown
   (p ++ up ++ post ++ [.write i status closing complete, .unlink c],
     if closing || !complete then .close else .again s')
@@ -124,9 +129,9 @@ def handleX (shutdown : Bool) (s : St) (i c : Nat) (reqClose : Bool) (rq : ReqB)
 def handleMitm (s : St) (i c : Nat) (tls : Bool) (rq : ReqB) (rs : ResB) : List Ev × Next :=
   let s' := stAfter s
   let p := pre s i c rq
-  if rq = .hijack then (p ++ [.hijacked i s.sessTls, .unlink c], .hijack) else
+  if rq = .hijack then (p ++ [.hijacked i s.sessTls (hijTid s), .unlink c], .hijack) else
   let post := [Ev.resmod i c 200] ++ (if rsErr rs then [Ev.warnRes i] else [])
-  if rs = .hijack then (p ++ post ++ [.hijacked i s.sessTls, .unlink c], .hijack) else
+  if rs = .hijack then (p ++ post ++ [.hijacked i s.sessTls (hijTid s), .unlink c], .hijack) else
   -- the CONNECT request stays linked while its tunnel is served (`defer unlink` runs at return);
   -- the trace records the unlink at the point the tunnel's requests start (see `run`).
   (p ++ post ++ [.write i 200 false true],
@@ -138,11 +143,11 @@ def handleMitm (s : St) (i c : Nat) (tls : Bool) (rq : ReqB) (rs : ResB) : List 
 def handleBlind (s : St) (i c : Nat) (dialOk : Bool) (rq : ReqB) (rs : ResB) : List Ev × Next :=
   let s' := stAfter s
   let p := pre s i c rq
-  if rq = .hijack then (p ++ [.hijacked i s.sessTls, .unlink c], .hijack) else
+  if rq = .hijack then (p ++ [.hijacked i s.sessTls (hijTid s), .unlink c], .hijack) else
   let status := if dialOk then 200 else 502
   let d := [Ev.dial i dialOk] ++ (if dialOk then [] else [Ev.warnRt i])
   let post := [Ev.resmod i c status] ++ (if rsErr rs then [Ev.warnRes i] else [])
-  if rs = .hijack then (p ++ d ++ post ++ [.hijacked i s.sessTls, .unlink c], .hijack) else
+  if rs = .hijack then (p ++ d ++ post ++ [.hijacked i s.sessTls (hijTid s), .unlink c], .hijack) else
   -- `res.ContentLength = -1`: net/http marks such a response `Connection: close`
   if dialOk then (p ++ d ++ post ++ [.write i 200 true true, .tunnel i, .unlink c], .close)
   else (p ++ d ++ post ++ [.write i 502 false true, .unlink c], .again s')
@@ -195,6 +200,6 @@ def isWrite (i : Nat) : Ev → Bool | .write j _ _ _ => j == i | _ => false
 def isWarnReq (i : Nat) : Ev → Bool | .warnReq j => j == i | _ => false
 def isWarnRes (i : Nat) : Ev → Bool | .warnRes j => j == i | _ => false
 def isWarnRt (i : Nat) : Ev → Bool | .warnRt j => j == i | _ => false
-def isHijacked (i : Nat) : Ev → Bool | .hijacked j _ => j == i | _ => false
+def isHijacked (i : Nat) : Ev → Bool | .hijacked j _ _ => j == i | _ => false
 
 end Martian.Proxy
